@@ -95,7 +95,7 @@ func (w *W) Thorough() bool { return w.Tier == "thorough" }
 // Mine reports whether case ordinal i belongs to this shard.
 func (w *W) Mine(i int64) bool { return w.Of <= 1 || int(i%int64(w.Of)) == w.Shard }
 
-func (w *W) Class(name string) { w.S.Classes[name]++ }
+func (w *W) Class(name string)          { w.S.Classes[name]++ }
 func (w *W) Count(name string, n int64) { w.S.Counters[name] += n }
 
 func (w *W) Sample(s any) {
